@@ -768,6 +768,52 @@ def c09(rac, units, tier, seed):
 STANDINS["C09"] = c09
 
 
+def c17(rac, units, tier, seed):
+    import glob
+    rep = Report("C17 serde derive output (CBOR/JSON round trips through the public types)", "rationals: grid incl. 0, negatives, 10^+-40, thirds; unit expressions: every documented unit name x {none, k, m} x powers -3..3 (exhaustive over the vocabulary) + seeded random products; every constant of every shipped db/*.bin.gz (exhaustive)")
+    rnd = random.Random(seed)
+    rats = [(0, 1), (1, 1), (-1, 1), (1, 3), (-2, 3), (1, 100), (27315, 100), (10**40, 1), (1, 10**40), (-10**40, 7), (2**64, 3), (2**32, 1), (2**32 - 1, 2**32), (123456789, 1000)]
+    N = 40 if tier == "quick" else 300
+    rats += [(rnd.randint(-10**rnd.randint(0, 30), 10**rnd.randint(0, 30)), rnd.randint(1, 10**rnd.randint(0, 20))) for _ in range(N)]
+    ans = rac.ask_many([{"cmd": "serde_rational", "n": str(n), "d": str(d)} for n, d in rats])
+    for (n, d), a in zip(rats, ans):
+        rep.ran(("rat", n, d), True, dict(rational=f"{n}/{d}", answer=a))
+        if not (a.get("cbor_eq") and a.get("json_eq")):
+            rep.fail("rational does not survive CBOR/JSON", query=f"Rational {n}/{d}", expected="decodes to an equal value", actual=json.dumps(a)[:200])
+    words = [w for w, _ in _unit_words(units, exclude_offsets=False)]
+    exprs = []
+    for w in words:
+        for pre in ("", "k", "m"):
+            for pw in (-3, -2, -1, 1, 2, 3):
+                exprs.append(f"{pre}{w}" + (f"^{pw}" if pw != 1 else ""))
+    for _ in range(100 if tier == "quick" else 2000):
+        exprs.append(_rand_unit_expr(rnd, units, [(w, nm, 0) for w, nm in _unit_words(units, exclude_offsets=True)], rnd.randint(2, 4))[0])
+    ans = rac.ask_many([{"cmd": "serde_compound", "s": e} for e in exprs])
+    for e, a in zip(exprs, ans):
+        if "err" in a:
+            continue   # the word is not accepted with this prefix (C05's concern), nothing to round-trip
+        rep.ran(("unit", e), True, dict(unit=e))
+        if "panic" in a or not a.get("cbor_eq") or a.get("unit") != a.get("unit2"):
+            rep.fail("unit expression does not survive CBOR", query=f"unit {e}", expected="decodes to an equal unit expression", actual=json.dumps(a, ensure_ascii=False)[:300])
+    total = 0
+    for path in sorted(glob.glob(os.path.join(rac.repo, "db", "*.bin.gz"))):
+        a = rac.ask({"cmd": "constants", "path": path})
+        if "constants" not in a:
+            rep.fail("shipped data file does not decode", query=path, expected="a list of constants", actual=json.dumps(a)[:300])
+            continue
+        for c in a["constants"]:
+            total += 1
+            rep.ran(("const", path, json.dumps(c.get("tokens"))), True, dict(file=os.path.basename(path), tokens=c.get("tokens")) if total < 3 else None)
+            if "decode_err" in c or "redecode_err" in c or not c.get("eq"):
+                rep.fail("shipped constant does not decode completely / re-encode losslessly", query=f"{os.path.basename(path)} {c.get('tokens') or c.get('raw')}", expected="value, unit, description and source decode and survive a second round trip", actual=json.dumps(c, ensure_ascii=False)[:300])
+    if total < 800:
+        rep.fail("fewer constants than shipped were seen", query="db/*.bin.gz", expected=">= 800 constants", actual=str(total))
+    return [rep]
+
+
+STANDINS["C17"] = c17
+
+
 def register(prop):
     def deco(fn):
         STANDINS[prop] = fn
@@ -864,6 +910,10 @@ def replay(prop, path, repo):
         return 1
     rac = Rac(repo)
     try:
+        if w.get("derived_id") is not None:
+            a = rac.ask({"cmd": "derived_id", "id": w["derived_id"]})
+            print(json.dumps(dict(derived_id=w["derived_id"], previously=w.get("actual"), now=a)))
+            return 1 if a.get("decoded") and a.get("id_back") != w["derived_id"] else 0
         q = w.get("query")
         if q is not None:
             ans = rac.query(q)
